@@ -2,6 +2,8 @@ package main
 
 import (
 	"bytes"
+	"fmt"
+	"os"
 	"runtime"
 	"strconv"
 	"strings"
@@ -122,6 +124,9 @@ var clock = struct {
 const flusherFunc = "startAsyncWritesRoutine"
 
 func clockGo(name, ev string) {
+	if debugClock {
+		fmt.Fprintf(os.Stderr, "GO g%d %s %s live=%d parked=%d gen=%d\n", gid(), name, ev, clock.live, len(clock.parked), clock.gen)
+	}
 	if ev == "spawn" {
 		clock.mu.Lock()
 		clock.spawnsAny++
@@ -227,6 +232,9 @@ func clockSettle() {
 	for i := 0; ; i++ {
 		clock.mu.Lock()
 		ok := len(clock.parked) >= clock.live
+		if ok && debugClock {
+			fmt.Fprintf(os.Stderr, "SETTLE ok parked=%d live=%d\n", len(clock.parked), clock.live)
+		}
 		clock.mu.Unlock()
 		if ok {
 			return
@@ -317,3 +325,5 @@ func clockFlusherCensus() (spawned, exited int64) {
 	defer clock.mu.Unlock()
 	return clock.spawns, clock.exits
 }
+
+var debugClock = os.Getenv("VERIF_DEBUG_FS") != ""
